@@ -201,16 +201,26 @@ def run_case(col, case, dt='float32'):
             TL.explore(col, V, body, f, make_replay, label=f"{case['sig']}/{kind}/{case['entry']}/{regime}", timeout_ms=60000)
 
 
+def run_indexed(col, case, k):
+    run_case(col, case, dt='float64' if k % 5 == 0 else 'float32')
+
+
 def shard(i, n, tier, seed):
     col = lib.Collector()
     cs = cases(tier, seed)
     mine = cs[i::n]
     with lib.Functions() as fns:
         for c in mine[:6]:
-            run_case(col, c)
+            if c['semiring'] in ('viterbi', 'bool'):
+                run_case(col, c)
     col.functions |= fns.names
-    for k, c in enumerate(mine[6:]):
-        run_case(col, c, dt='float64' if k % 5 == 0 else 'float32')
+    for k, c in enumerate(mine):
+        dt = 'float64' if k % 5 == 0 else 'float32'
+        if c['semiring'] in ('viterbi', 'bool'):
+            if k >= 6:
+                run_case(col, c, dt=dt)
+        else:   # nonlinear real arithmetic: hard per-case limit
+            lib.guarded(lambda cc, c=c, dt=dt: run_case(cc, c, dt=dt), col, 120, f"{c['sig']}/{c['semiring']}")
     return col.result(symx.STATS)
 
 
@@ -219,7 +229,7 @@ def main():
     if a.replay:
         common.do_replay(PID, a.replay)
     t0 = time.time()
-    merged = lib.merge(lib.run_sharded('c07', 'shard', a.tier, a.seed))
+    merged = lib.merge(lib.run_pool('c07', a.tier, a.seed))
     code = lib.finish(
         PID, a.tier, a.seed, 'other', merged, t0,
         rule='case = (einsum signature, index sizes, one typed sparsity pattern + default per operand, semiring, requires_grad, entry point '
